@@ -211,6 +211,9 @@ HllSketchImpl<A>* hll_union_alloc<A>::copy_or_downsample(const HllSketchImpl<A>*
   typedef typename std::allocator_traits<A>::template rebind_alloc<Hll8Array<A>> hll8Alloc;
   Hll8Array<A>* tgtHllArr = new (hll8Alloc(src->getAllocator()).allocate(1)) Hll8Array<A>(tgt_lg_k, false, src->getAllocator());
   tgtHllArr->mergeHll(*src);
+  // mergeHll only sets the deferred-rebuild flag: cur_min / num_at_cur_min / kxq are still those of an empty array,
+  // so isEmpty() would report true and the next input would replace this gadget. Make them valid right away.
+  tgtHllArr->check_rebuild_kxq_cur_min();
   //both of these are required for isomorphism
   tgtHllArr->putHipAccum(src->getHipAccum());
   tgtHllArr->putOutOfOrderFlag(src->isOutOfOrderFlag());
